@@ -106,6 +106,17 @@ Theorem statement_list_aborts_on_first_error : forall rec st l s e s1,
   rec (CStmt (Some st)) s = Err e s1 -> run_stmts rec (st :: l) s = Err e s1.
 Proof. intros rec st l s e s1 Hst H. destruct st; try contradiction; cbn [run_stmts]; now rewrite H. Qed.
 
+(* throw always raises: whatever the operand's text is - the empty string included - the statement ends
+   with an error carrying that text, never normally *)
+Theorem throw_always_raises : forall orc cancel_at rec e s s0 s1 m,
+  poll cancel_at s = (false, s0) ->
+  rec (CExpr e) s0 = Ok s1 ->
+  to_string_st orc (r_st s1) (deref (r_st s1) (r_rv s1)) = TOk m ->
+  run_single orc cancel_at rec (Some (SThrow e)) s = Err (EVm m) s1.
+Proof.
+  intros orc cancel_at rec e s s0 s1 m Hp He Hm. unfold run_single. rewrite Hp, He, Hm. reflexivity.
+Qed.
+
 (* an uncaught error of a script function reaches the caller as an error of the call *)
 Theorem callee_error_is_an_error_of_the_call : forall orc cancel_at fuel f args cs s e s',
   exec orc cancel_at fuel (CApply f args cs) s = Err e s' ->
@@ -123,6 +134,7 @@ Print Assumptions defer_registers_evaluated_arguments.
 Print Assumptions try_passes_the_interrupt.
 Print Assumptions try_runs_catch_with_the_error_bound.
 Print Assumptions callee_error_is_an_error_of_the_call.
+Print Assumptions throw_always_raises.
 
 (* non-vacuity: two defers in a function that then fails; both run, last first, and the body's error wins *)
 Open Scope string_scope.
